@@ -120,8 +120,8 @@ def random_scn(rng, k, big=False, cached=None):
 def long_scns(tier):
     out = []
     # crossing the 4095-blob limit, raw and compressed, and interleaved
-    for name, comp, hints in ([("blobs_comp", "zstd", ["yes"])] if tier == "quick" else
-                              [("blobs_raw", "none", ["detect"]), ("blobs_comp", "zstd", ["yes"]),
+    for name, comp, hints in ([("blobs_comp", "zstd", ["yes"]), ("blobs_rawhint", "lz4", ["no"])] if tier == "quick" else
+                              [("blobs_raw", "none", ["detect"]), ("blobs_comp", "zstd", ["yes"]), ("blobs_rawhint", "zstd", ["no"]),
                                ("blobs_mixed", "lz4", ["yes", "no"])]):
         n = 4100 if name != "blobs_mixed" else 8200
         ops = [{"cid": j + 1, "size": (j % 7), "cls": "low", "hint": hints[j % len(hints)]} for j in range(n)]
@@ -138,6 +138,10 @@ def long_scns(tier):
         sizes += [16 * MIB - 67000, 463, 1, 5]
     ops = [{"cid": j + 1, "size": s, "cls": "rand", "hint": "no"} for j, s in enumerate(sizes)]
     out.append({"kind": "content", "id": "widths_raw", "comp": "zstd", "level": 1, "ops": ops, "origin": "long"})
+    # a cluster of more than 16 MiB: 4-byte offsets in its tail (one raw content, and one compressible content in a compressed cluster)
+    out.append({"kind": "content", "id": "width4_raw", "comp": "lz4", "level": 0, "origin": "long",
+                "ops": [{"cid": 1, "size": 7, "cls": "low", "hint": "no"}, {"cid": 2, "size": 16 * MIB + 5, "cls": "low", "hint": "no"},
+                        {"cid": 3, "size": 300, "cls": "rand", "hint": "no"}, {"cid": 4, "size": 16 * MIB + 1, "cls": "zero", "hint": "yes"}]})
     # incompressible data forced into compressed clusters just under each width boundary
     for comp in ["zstd", "lz4", "lzma"]:
         for size in ([250, 255, 65530] if tier == "quick" else [248, 250, 253, 255, 65520, 65530, 65535]):
